@@ -420,6 +420,7 @@ func runC06(a *args) error {
 	var cases []wCase
 	var items []string
 	addCase := func(gid uuid.UUID, calls []wCall, obs, ref []wObs, ci int) {
+		reported := false
 		c := wCase{Group: gid.String(), Calls: calls, Obs: obs, Ref: ref}
 		cases = append(cases, c)
 		cs := make([]string, len(calls))
@@ -436,10 +437,10 @@ func runC06(a *args) error {
 				st.count("err:" + obs[i].Err)
 			}
 			// Go-side oracle: on calls raft may issue, the Badger store answers exactly as MemoryStorage
-			if calls[i].Legal && fmt.Sprint(obs[i]) != fmt.Sprint(ref[i]) && !(ptrSnapEq(obs[i].Snap, ref[i].Snap) && obs[i].Kind == ref[i].Kind && fmt.Sprint(obs[i].Ents) == fmt.Sprint(ref[i].Ents) && obs[i].Num == ref[i].Num && obs[i].Err == ref[i].Err && obs[i].Hard == ref[i].Hard && fmt.Sprint(obs[i].Conf) == fmt.Sprint(ref[i].Conf)) {
+			if !reported && calls[i].Legal && fmt.Sprint(obs[i]) != fmt.Sprint(ref[i]) && !(ptrSnapEq(obs[i].Snap, ref[i].Snap) && obs[i].Kind == ref[i].Kind && fmt.Sprint(obs[i].Ents) == fmt.Sprint(ref[i].Ents) && obs[i].Num == ref[i].Num && obs[i].Err == ref[i].Err && obs[i].Hard == ref[i].Hard && fmt.Sprint(obs[i].Conf) == fmt.Sprint(ref[i].Conf)) {
 				st.ImplFailures = append(st.ImplFailures, implFailure{Case: ci, What: fmt.Sprintf("call %d (%s): badgerWAL answered %s, MemoryStorage %s", i, cs[i], os_[i], rs[i]),
 					Key: "wal-differs-from-reference:" + calls[i].K, Input: c})
-				break
+				reported = true
 			}
 		}
 		items = append(items, fmt.Sprintf("{| wc_calls := [%s];\n      wc_legal := [%s];\n      wc_obs := [%s];\n      wc_ref := [%s] |}",
